@@ -73,13 +73,14 @@ def k_range(o):
 
 
 def shard_mul(arg):
-    curves, paths, zs = arg
+    curves, paths, zs = arg[:3]
+    stride = arg[3] if len(arg) > 3 else (0, 1)
     ec = _lib()
     sh = Shard()
     for (p, a, b) in curves:
         G = rc.Group(p, a, b)
         N = G.size
-        for P in G.points:
+        for P in G.points[stride[0]::stride[1]]:
             o = G.order(P)
             even = (o % 2 == 0)
             mults = G.multiples(P)
@@ -326,8 +327,12 @@ def main(ctx):
     toys = [t for t in catalog.all_toys() if t.p <= ctx.pick(37, 131)]
     extra = ctx.rotate([t for t in catalog.all_toys() if 131 < t.p < 400],
                        ctx.pick(1, 8))
-    for t in toys + extra:
+    for t in toys:
         jobs.append((shard_mul, "mul-toy", ([t.key()], PATHS, [1, 3])))
+    for t in extra:
+        for i in range(2 * ctx.jobs):
+            jobs.append((shard_mul, "mul-toy-large",
+                         ([t.key()], PATHS, [1, 3], (i, 2 * ctx.jobs))))
     # mul_add: all curves over F_7 (thorough: F_11 as well), P = every
     # 3rd point; toy curves with P = G
     ma_items = []
